@@ -20,9 +20,31 @@ use common::*;
 fn main() {
     install_panic_hook();
     let args = parse_args();
+    if args.has("--no-evidence") {
+        NO_EVIDENCE.store(true, std::sync::atomic::Ordering::Relaxed);
+    }
+    if args.has("--miri") {
+        craft::RAW_BLOCKS.store(true, std::sync::atomic::Ordering::Relaxed);
+    }
     if args.prop.is_empty() {
         eprintln!("usage: vharness <C01..C20> [--tier quick|thorough] [--seed N] [--replay PATH]");
         std::process::exit(2);
+    }
+    // engines without a dedicated single-case replay: re-run the (deterministic, seeded) check of the recorded
+    // seed and tier and report whether a violation of the recorded kind reproduces
+    let generic_replay = args.replay.is_some() && !matches!(args.prop.as_str(), "C01" | "C02" | "C03" | "C04" | "C05" | "C09" | "C12" | "C13" | "C14" | "C16" | "C20");
+    let mut args = args;
+    let mut want_kind: Option<String> = None;
+    if generic_replay {
+        let doc: serde_json::Value = std::fs::read_to_string(args.replay.as_ref().unwrap()).ok().and_then(|s| serde_json::from_str(&s).ok()).unwrap_or(serde_json::json!({}));
+        if let Some(s) = doc["seed"].as_u64() {
+            args.seed = s;
+        }
+        if doc["tier"] == "thorough" {
+            args.tier = Tier::Thorough;
+        }
+        want_kind = doc["kind"].as_str().map(|s| s.to_string());
+        println!("replaying {} at seed {} tier {} (looking for kind {:?})", args.prop, args.seed, args.tier.name(), want_kind);
     }
     let code = match args.prop.as_str() {
         "C01" | "C02" | "C03" | "C04" | "C05" | "C12" | "C13" | "C16" | "C20" => {
